@@ -110,6 +110,12 @@ def run(ctx):
     ctx.check(bool(errs) and not stray, 'R1', 'refusal-only-on-decode-failure', F.where(stray[0][0]) if stray else F,
               'the only error return of send_transaction is the decoder\'s failure',
               'send_transaction refuses a request for a reason other than a failed decode: %s' % [(show(r[1])[:60], [show(c)[:80] if c[0] not in ('is', 'switch') else c[0] for c in r[2]][-2:]) for r in stray][:2])
+    # "API access enabled and the request names the canister's network": the two guards mean exactly that
+    # (shared with C14.R2: verify_api_access panics iff api_access == Disabled, verify_network iff the
+    # networks differ)
+    from sa.engine import SubCtx
+    from rules import c14
+    c14.run(SubCtx(ctx, {'R2': 'R1'}))
     vs = prog.fn('ic_btc_canister::verify_synced', required=False)
     if vs is not None:
         reach = prog.reach([prog.root_of(F)])
